@@ -40,6 +40,8 @@ type Prog struct {
 	callers map[*ssa.Function][]ssaCall
 
 	Overlay map[string][]byte
+
+	compatTables *[2]string
 }
 
 // LoadProg loads ./... of the repository. goos/goarch may be empty (host).
